@@ -361,6 +361,8 @@ def build_request(ex, meta):
             r["slice_nth"] = int(o["slice_nth"])
         if "slice_sig" in o:
             r["slice_sig"] = o["slice_sig"].replace("~", " ")
+        if o.get("slice_body") == "1":
+            r["slice_body"] = True
         if "slice_tail" in o:
             r["slice_tail"] = o["slice_tail"].replace("~", " ")
     if "slice_from" in o or "slice_to" in o:
